@@ -36,6 +36,15 @@ func JSONInput(tag string) []byte    { return nil }
 // 4 array of vals, 5 object keys[i]:vals[i]; element `bad` (if >= 0) is a JSON string where a number is expected.
 func JSONDoc(class int, keys, vals []int, bad int) []byte { return nil }
 
+// Symbolic strings are order-isomorphic atoms: Str draws one, StrOf/IntOf convert between a string and its atom
+// number (0 is the empty string). Only comparison, storage and JSON (un)marshalling of such strings is modelled.
+func Str(tag string) string { return "" }
+func StrOf(x int) string    { return "" }
+func IntOf(s string) int    { return 0 }
+
+// JSONDocS is JSONDoc for documents whose keys and values are strings; element `bad` is a number.
+func JSONDocS(class int, keys, vals []string, bad int) []byte { return nil }
+
 // JSONKind classifies bytes: 0 not valid JSON, 2 null, 3 scalar, 4 array, 5 object.
 func JSONKind(data []byte) int { return 0 }
 
